@@ -7,8 +7,12 @@ package main
 // program and compares instruction by instruction.
 
 import (
+	"encoding/json"
 	"fmt"
 	"math/big"
+	"os"
+	"path/filepath"
+	"strconv"
 	"strings"
 
 	"github.com/consensys/gnark-crypto/ecc"
@@ -142,7 +146,7 @@ func runBuilderTie(o *Opts, rep *Report) {
 			rep.Eval(fmt.Sprintf("builder|%s|%d|%s", t, thr, v), len(v.Ops) > 0)
 			rep.Count(fmt.Sprintf("builder:thr-%d", thr))
 			cases = append(cases, c)
-			idx = append(idx, map[string]interface{}{"target": t.String(), "prog": v.String(), "threshold": thr, "compile": msg})
+			idx = append(idx, map[string]interface{}{"target": t.String(), "prog": v.String(), "threshold": thr, "compile": msg, "prog_json": v})
 		}
 	}
 	rep.Count("builder:cases")
@@ -164,4 +168,124 @@ func runBuilderTie(o *Opts, rep *Report) {
 	rep.Extra["builder_model_cases"] = len(cases)
 	rep.Extra["builder_model_compile_panics"] = npanic
 	rep.Extra["case_index_builder"] = idx
+}
+
+// ---------------------------------------------------------------- search for a failing input after a divergence
+//
+// When the system emitted by the real builder differs from the Gallina builder's (the check passes the indices of
+// the diverging cases), the property oracle is run on exactly these programs over every input tuple from a small
+// boundary set, with the documented outputs and with a perturbed output: a divergence that changes behaviour is
+// reported with the concrete program / assignment.
+
+func init() { commands["c04search"] = runC04Search }
+
+func runC04Search(args []string) int {
+	o := parseOpts(args)
+	rep := NewReport("C04")
+	raw, err := os.ReadFile(filepath.Join(o.Out, "report.json"))
+	if err != nil {
+		fmt.Println(err)
+		return 2
+	}
+	var prev struct {
+		Extra map[string]json.RawMessage `json:"extra"`
+	}
+	if err := json.Unmarshal(raw, &prev); err != nil {
+		fmt.Println(err)
+		return 2
+	}
+	var idx []struct {
+		Target    string `json:"target"`
+		Threshold int    `json:"threshold"`
+		Prog      *Prog  `json:"prog_json"`
+	}
+	if err := json.Unmarshal(prev.Extra["case_index_builder"], &idx); err != nil {
+		fmt.Println(err)
+		return 2
+	}
+	var want []int
+	for _, f := range strings.Split(os.Getenv("VERIF_MISMATCH_IDX"), ",") {
+		if n, err := strconv.Atoi(strings.TrimSpace(f)); err == nil {
+			want = append(want, n)
+		}
+	}
+	nfound := 0
+	for _, ci := range want {
+		if ci < 0 || ci >= len(idx) || idx[ci].Prog == nil || nfound >= 5 {
+			continue
+		}
+		c := idx[ci]
+		t := Target{"bn254", ecc.BN254.ScalarField(), true}
+		if strings.HasPrefix(c.Target, "tiny") {
+			t = Target{"tiny", tinyMod, true}
+		}
+		p := c.Prog
+		nin := p.NbPub + p.NbSec
+		set := []*big.Int{big.NewInt(0), big.NewInt(1), big.NewInt(2), big.NewInt(3), new(big.Int).Sub(t.Field, big.NewInt(1))}
+		total := 1
+		for i := 0; i < nin; i++ {
+			total *= len(set)
+		}
+		if total > 3125 {
+			total = 3125
+		}
+		opt := frontend.WithCompressThreshold(c.Threshold)
+	tuples:
+		for k := 0; k < total; k++ {
+			in := make([]*big.Int, nin)
+			kk := k
+			for i := range in {
+				in[i] = set[kk%len(set)]
+				kk /= len(set)
+			}
+			vals, specOK, free, why := EvalSpec(p, t.Field, in)
+			if free {
+				continue
+			}
+			outs := make([]*big.Int, len(p.Outs))
+			for i, ov := range p.Outs {
+				outs[i] = vals[ov]
+			}
+			type variant struct {
+				name string
+				outs []*big.Int
+				ok   bool
+			}
+			vs := []variant{{"documented-outs", outs, specOK}}
+			if len(outs) > 0 && specOK {
+				bad := append([]*big.Int{}, outs...)
+				bad[0] = new(big.Int).Mod(new(big.Int).Add(bad[0], big.NewInt(1)), t.Field)
+				vs = append(vs, variant{"wrong-out", bad, false})
+			}
+			for _, v := range vs {
+				obs, msg := runProg(t, p, in, v.outs, opt)
+				rep.Eval(fmt.Sprintf("search|%d|%v|%s", ci, in, v.name), true)
+				desc := c04Desc{t.String(), p.String(), bigStrs(in), bigStrs(v.outs), fmt.Sprintf("builder-case-%d/threshold-%d/%s", ci, c.Threshold, v.name), obs, v.ok, why}
+				switch {
+				case obs == "ok" && !v.ok:
+					rep.Fail("c04:builder-divergence:accepts-violated:"+t.String(), "the emitted system differs from the Gallina builder's and Solve succeeds although "+map[bool]string{true: "the exposed output is wrong", false: why}[v.name == "wrong-out"], desc)
+					nfound++
+					break tuples
+				case obs == "fail" && v.ok:
+					rep.Fail("c04:builder-divergence:rejects-valid:"+t.String(), "the emitted system differs from the Gallina builder's and compile/solve fails ("+msg+") although every assertion holds and the exposed values are the documented ones", desc)
+					nfound++
+					break tuples
+				case strings.HasPrefix(obs, "panic"):
+					kinds := strings.Join(progKinds(p), "+")
+					if c.Threshold == 2 && (strings.Contains(kinds, "IsZero") || strings.Contains(kinds, "Cmp")) && strings.Contains(msg, "more than one wire") {
+						// the recorded finding F18 (satisfiable, not solvable in the emitted order), not this divergence
+						rep.Fail("c04:solve-panic:compress-2:iszero:more-than-one-wire", "Solve panicked: "+msg, desc)
+						continue tuples
+					}
+					rep.Fail("c04:builder-divergence:panic:"+t.String(), "the emitted system differs from the Gallina builder's and "+obs+": "+msg, desc)
+					nfound++
+					break tuples
+				}
+			}
+		}
+	}
+	rep.Extra["searched_cases"] = want
+	os.MkdirAll(filepath.Join(o.Out, "search"), 0o755)
+	rep.Write(filepath.Join(o.Out, "search"))
+	return 0
 }
